@@ -186,7 +186,9 @@ package proportion
 // every queue record of the plugin is usable: non-nil, keyed by its UID, coherent caches, non-negative
 // over-quota weights, and every listed child id is present (so getChildQueues yields no nil entry)
 //@ define shapeOK(m map[common_info.QueueID]*rs.QueueAttributes) bool = forall k in m :: m[k] != nil && m[k].UID == k && m[k].CPU.OverQuotaWeight >= 0.0 && m[k].Memory.OverQuotaWeight >= 0.0 && m[k].GPU.OverQuotaWeight >= 0.0
-//@ define childrenPresent(m map[common_info.QueueID]*rs.QueueAttributes) bool = forall k in m :: forall i int :: 0 <= i && i < len(m[k].ChildQueues) ==> m[k].ChildQueues[i] in m
+// every child id listed by a value of `sub` is a key of m (flat two-variable form: one E-matching step)
+//@ define kidsIn(sub map[common_info.QueueID]*rs.QueueAttributes, m map[common_info.QueueID]*rs.QueueAttributes) bool = forall k common_info.QueueID, i int :: k in sub && 0 <= i && i < len(sub[k].ChildQueues) ==> sub[k].ChildQueues[i] in m
+//@ define childrenPresent(m map[common_info.QueueID]*rs.QueueAttributes) bool = kidsIn(m, m)
 //@ define cachesOK(m map[common_info.QueueID]*rs.QueueAttributes) bool = forall k in m :: rs.cacheOK(m[k])
 //@ define keysIn(sub map[common_info.QueueID]*rs.QueueAttributes, m map[common_info.QueueID]*rs.QueueAttributes) bool = forall k in sub :: k in m
 //@ define sameAs(sub map[common_info.QueueID]*rs.QueueAttributes, m map[common_info.QueueID]*rs.QueueAttributes) bool = forall k in sub :: sub[k] == m[k]
